@@ -33,6 +33,7 @@ class Sc:
         self.failures = []
         self.tainted_ws = set()  # texts re-touched whitespace-only after being committed as AI (known finding)
         self.overlap = False     # a later commit of the rewritten range touches a file an earlier one touched
+        self.human_replaced = set()   # texts a person wrote in place of an existing line
 
     # ------------------------------------------------------------ content helpers
     def fresh(self, who):
@@ -74,6 +75,8 @@ class Sc:
         elif kind == "replace":
             new = [self.fresh(who) for _ in range(k)]
             ls[pos:pos + 1] = new
+            if who == "human":
+                self.human_replaced.update(norm(t) for t in new)
         else:
             self.uid += 1
             t = ls[pos] + f" m{self.uid}"
@@ -144,7 +147,7 @@ class Sc:
                 if want != have:
                     if want and not have:
                         sig = "surviving-ai-line-lost"
-                    elif have and not want and self.is_human_tweak_of(t, have):
+                    elif have and not want and (self.is_human_tweak_of(t, have) or norm(t) in self.human_replaced):
                         sig = "human-tweak-of-ai-line-still-ai"
                     elif have and not want:
                         sig = "human-line-became-ai"
